@@ -55,7 +55,7 @@ CLAIMED = {
         text="PARTIAL. (Kani) source lattice (ValueSource order, set_source keeps the maximum, explicit-ness) for all source sequences <= 3, and the implicit default / "
              "missing-value tables of every ArgAction incl. what Arg::_build installs. (MIR->SMT) fixed phase order of Parser::get_matches_with and its error-ignoring recovery closure: "
              "parse, resolve_pending, add_env, add_defaults, validate on every feasible path. add_env / add_default_value record only EnvVariable / DefaultValue, and supply a value only on paths where matcher.contains(this argument) was consulted and is false, at most once per argument. "
-             "Parser::start_custom_arg removes overridden arguments only for a command-line occurrence (never for env/default values); check_explicit (see C03). "
+             "Parser::start_custom_arg removes overridden arguments only for a command-line occurrence (never for env/default values); check_explicit (see C03); under ignore_errors an error of resolve_pending goes through the same env/defaults recovery as an error of parse. "
              "What react does with such values is covered only as far as C02/C07 go.",
         note="Kernel-level only; callees of add_env/add_default_value are opaque.",
         ref="2 C06", technique=MIX),
@@ -181,7 +181,7 @@ def main():
         ],
         "checks": checks,
         "not_applicable": [{"property_id": k, "reason": v} for k, v in sorted(na.items())],
-        "notes": "Every verdict is 'holds for all inputs inside the bound stated in evidence/<id>.json'. exit 2 = inconclusive (timeout/OOM/vacuous harness/unreproduced counterexample), never reported as success. Known findings (genuine defects recorded rather than repaired) and the list of repaired ones are in /verif/known_findings.txt: currently three findings (C11 no_binary_name usage names; C12 sort-key collision between a short flag and a long-only option; C01/C02 a revisited short cluster taken whole as a hyphen value) and sixteen `fixed:` entries whose fix: commits are in /repo. See DESIGN.md 1.5.",
+        "notes": "Every verdict is 'holds for all inputs inside the bound stated in evidence/<id>.json'. exit 2 = inconclusive (timeout/OOM/vacuous harness/unreproduced counterexample), never reported as success. Known findings (genuine defects recorded rather than repaired) and the list of repaired ones are in /verif/known_findings.txt: currently three findings (C11 no_binary_name usage names; C12 sort-key collision between a short flag and a long-only option; C01/C02 a revisited short cluster taken whole as a hyphen value) and seventeen `fixed:` entries whose fix: commits are in /repo. See DESIGN.md 1.5.",
     }
     with open(os.path.join(VERIF, "MANIFEST.json"), "w") as f:
         json.dump(m, f, indent=1)
